@@ -45,6 +45,8 @@ def evd(term: dict, node: Node) -> Any:
             return univ.rep(term["a"], node.k)         # the outer form is another token than the value (Enum member -> its value)
         return node.last
     if c == "dump":
+        if term["f"] in ("BytesIO", "IObytes"):
+            return univ.DUMPS[term["f"]](univ.rep(node.a, node.k))       # a fresh stream: the dumped one has been read
         return univ.DUMPS[term["f"]](node.last)
     if c == "dict":
         return {evd(a, kn): evd(b, vn) for a, kn, b, vn in zip(term["ks"], node.keys, term["vs"], node.vals)}
